@@ -18,7 +18,8 @@ variable {p : Fun.CheckedProgram} {P : Prog} {G : String → Prop}
 
 /-- what is shown about every definition of the output -/
 def GoodDef (P : Prog) (G : String → Prop) (D : Def) : Prop :=
-  D.body.check P D.ctx = true ∧ allIdsStmt (GoodId G) D.body ∧ ∀ b ∈ D.ctx, GoodId G b.var
+  D.body.check P D.ctx = true ∧ allIdsStmt (GoodId G) D.body ∧ (∀ b ∈ D.ctx, GoodId G b.var) ∧
+    D.body.strict P = true
 
 /-- the names of a definition (parameters, binders) satisfy `G` -/
 def DefNamesGood (G : String → Prop) (d : Fun.Def) : Prop :=
@@ -132,7 +133,7 @@ theorem compileDef_typed {d : Fun.Def} {cts : List TypeDecl} {l : List String}
       hbin hc hx hsl hok0
     intro D hD
     rcases List.mem_cons.1 hD with rfl | hD
-    · refine ⟨hs.1, hs.2, ?_⟩
+    · refine ⟨hs.1, hs.2.1, ?_, hs.2.2⟩
       intro b hb
       exact (hnm b hb).2
     · exact hlo D hD
@@ -177,7 +178,7 @@ theorem compileMain_typed {d : Fun.Def} {cts : List TypeDecl} {l : List String}
     have hc : TOK P G (compileContext d.ctx) .cns (compileTy d.retTy)
         (.mu .cns ⟨(freshVar st0).1, 0⟩ (compileTy d.retTy)
           (.exit (.var .prd ⟨(freshVar st0).1, 0⟩ (compileTy d.retTy)) (compileTy d.retTy))) := by
-      refine TOK.mu hgx (SOK.exit ?_)
+      refine TOK.mu hgx (tyDeclared_of_typed env hdef.body) (SOK.exit ?_)
       rw [hret]
       exact TOK.var_head hgx
     have hsl : SigLifted P st' := fun D hD => hsig D (by simp [hD])
@@ -190,7 +191,7 @@ theorem compileMain_typed {d : Fun.Def} {cts : List TypeDecl} {l : List String}
       hbin hc hx hsl hok0
     intro D hD
     rcases List.mem_cons.1 hD with rfl | hD
-    · refine ⟨hs.1, hs.2, ?_⟩
+    · refine ⟨hs.1, hs.2.1, ?_, hs.2.2⟩
       intro b hb
       exact (hnm b hb).2
     · exact hlo D hD
@@ -451,5 +452,38 @@ theorem compileProg_disjoint (hp : ProgM p) {q : Prog} (h : compileProg p = .ok 
     obtain ⟨c0, hc0, rfl⟩ := hc
     intro e
     exact hp.disjoint d0 hd0 c0 hc0 (by simpa using congrArg Ident.name e)
+
+/-- the output satisfies the side condition `Prog.strictOk` of the middle passes
+(Scc/Core/TypedStrict.lean): no type called `_Cont` (if the source has none), the xtor names of every
+declaration pairwise distinct, every body `strict` (cut / μ types declared, clauses in declaration
+order) -/
+theorem compileProg_strictOk (hg : FreshGood G) (hp : ProgHyp p G)
+    (hc1 : ∀ d ∈ p.dataTypes, d.name ≠ "_Cont") (hc2 : ∀ d ∈ p.codataTypes, d.name ≠ "_Cont")
+    {q : Prog} (h : compileProg p = .ok q) : q.strictOk = true := by
+  obtain ⟨e1, e2, _, hd⟩ := compileProg_typed hg hp h
+  simp only [Prog.strictOk, Bool.and_eq_true, Bool.not_eq_true', List.any_eq_false, List.all_eq_true,
+    e1, e2, dataTypesOf, codataTypesOf, List.mem_map, forall_exists_index, and_imp,
+    forall_apply_eq_imp_iff₂]
+  refine ⟨⟨⟨⟨?_, ?_⟩, ?_⟩, ?_⟩, fun D hD => (hd D hD).2.2.2⟩
+  · intro d hd' hb
+    have := Ident.beq_iff.1 hb
+    exact hc1 d hd' (by simpa using congrArg Ident.name this)
+  · intro d hd' hb
+    have := Ident.beq_iff.1 hb
+    exact hc2 d hd' (by simpa using congrArg Ident.name this)
+  · intro d hd'
+    simp only [TypeDecl.xtorsDistinct, decide_eq_true_eq, List.map_map]
+    have := hp.typed.ctorsNodup d hd'
+    have e : (fun c : XtorSig => c.name) ∘ compileCtor = ident0 ∘ fun c : Fun.CtorSig => c.name := by
+      funext c; rfl
+    rw [e, ← List.map_map]
+    exact List.Pairwise.map _ (fun a b hab h => hab (ident0_inj h)) this
+  · intro d hd'
+    simp only [TypeDecl.xtorsDistinct, decide_eq_true_eq, List.map_map]
+    have := hp.typed.dtorsNodup d hd'
+    have e : (fun c : XtorSig => c.name) ∘ compileDtor = ident0 ∘ fun c : Fun.DtorSig => c.name := by
+      funext c; rfl
+    rw [e, ← List.map_map]
+    exact List.Pairwise.map _ (fun a b hab h => hab (ident0_inj h)) this
 
 end Scc.Fun2Core.Typed
